@@ -23,11 +23,13 @@ Theorem C07_move_creates_destination : forall va, 1 < va ->
 Proof. exact move_creates_destination. Qed.
 Print Assumptions C07_move_creates_destination.
 
-(* not atomic with respect to other clients: two moves into a destination that does not exist yet
-   both create it; both report success and one element is gone (4 elements before, 3 after) *)
-Theorem C07_two_moves_lose_an_element :
-  let s := run_grants [0;0;1;1;0;1;0;1;0;1;0;1]%nat (init_state [(1%nat, 2); (2%nat, 2)] [Move 1 3; Move 2 3]) in
+(* two moves into a destination that does not exist yet: before tx.go was repaired both created
+   it, both reported success and one element was gone (4 before, 3 after).  Now the second creator
+   uses the record the first one published: 4 elements before, 4 after (kernel-evaluated schedule,
+   forced on the implementation by the check) *)
+Theorem C07_two_moves_into_missing_destination_conserve :
+  let s := run_grants [0;0;1;1;0;1;0;1;0;1;0;1;0;1;0;1]%nat (init_state [(1%nat, 2); (2%nat, 2)] [Move 1 3; Move 2 3]) in
   reply_of 0 s = Some 1 /\ reply_of 1 s = Some 1 /\
-  key_val 1 s = Some 1 /\ key_val 2 s = Some 1 /\ key_val 3 s = Some 1.
+  key_val 1 s = Some 1 /\ key_val 2 s = Some 1 /\ key_val 3 s = Some 2.
 Proof. vm_compute. repeat split; reflexivity. Qed.
-Print Assumptions C07_two_moves_lose_an_element.
+Print Assumptions C07_two_moves_into_missing_destination_conserve.
